@@ -92,12 +92,11 @@ def check(ctx):
         zero_arm_ok = False
         for b2 in sorted(body.reachable):
             info = mir.switch_on(body, b2)
-            if info and info["kind"] == "bin" and info["bin"]["op"] in ("Eq", "Ne"):
+            if info and info["kind"] == "bin" and info["bin"]["op"] in ("Eq", "Ne", "Gt"):
                 l, r = info["bin"]["l"], info["bin"]["r"]
                 if lib.const_val(r) == 0 and origins(body, l) == origins(body, t["args"][0]):
                     tg = info["targets"]
-                    eq_t = info["otherwise"] if (info["bin"]["op"] == "Eq") == (0 in tg) else tg.get(0, info["otherwise"])
-                    ne_t = tg.get(0) if info["bin"]["op"] == "Eq" else info["otherwise"]
+                    # `num == 0` / `num != 0` / `num > 0` (unsigned): which arm is the zero arm
                     if info["bin"]["op"] == "Eq":
                         eq_t, ne_t = info["otherwise"], tg.get(0)
                     else:
@@ -228,8 +227,9 @@ def check(ctx):
     H = ctx.anchor("C05.d", lambda: A.abort_helper(prog), "abort helper")
     if H is not None:
         ctx.touch(H)
-        setup = [b for b, t, fr in H.iter_calls() if fr and lib.tail(mir.fn_name(fr), 2) == A.names(prog)["setup_run"] and lib.originates_from_arg(H, t["args"][0], 2)]
-        clean = [b for b, t, fr in H.iter_calls() if fr and lib.tail(mir.fn_name(fr), 2) == A.names(prog)["cleanup_run"] and lib.originates_from_arg(H, t["args"][0], 3)]
+        si_, ci_ = A.abort_positions(prog)
+        setup = [b for b, t, fr in H.iter_calls() if fr and lib.tail(mir.fn_name(fr), 2) == A.names(prog)["setup_run"] and lib.originates_from_arg(H, t["args"][0], si_)]
+        clean = [b for b, t, fr in H.iter_calls() if fr and lib.tail(mir.fn_name(fr), 2) == A.names(prog)["cleanup_run"] and lib.originates_from_arg(H, t["args"][0], ci_)]
         cs, _, _ = lib.event_counts(H, setup)
         cc, _, _ = lib.event_counts(H, clean)
         ctx.check(cs == {1} and cc == {1} and all(any(H.dominates(s, c) for s in setup) for c in clean), "C05.d",
